@@ -575,8 +575,10 @@ def oracle(ctx, I, T, res, rng, scale=1.0):
     for t in grid(TC1_C + 0.01, 590., n(40, 1000)):
         a, b = sorted([ref_b23p(t), ref_b23p67(t)])
         rc += [(t, a * (1 - 1e-5)), (t, min(b * (1 + 1e-5), 100e6)), (t, a * (1 - 1e-3)), (t, min(b * (1 + 1e-3), 100e6))]
+    u0 = res.unstable
     for t, p in rc:
         apply('regions', {'t': t, 'p': p})
+    res.hyp['regions_agree_logic: t <= 350 or t > Tc1 and p outside both curves (classifier states explored)'] = [len(rc) - (res.unstable - u0), len(rc)]
     # separated steam fraction
     hyp_h = [0, 0]
     for _ in range(n(250, 6000)):
